@@ -34,4 +34,108 @@ def holds (env : Env) (sc : RouteScn) (obs : List Obs) : Bool :=
           Http.valuesOf Sock.CONTENT_LENGTH m.headers == [natDigits m.body.length]
         | none => false))
 
+/-! ## Theorems -/
+
+open Qhttp.RouteL
+
+theorem mwActs_map_mwAct (l : List (Nat × Bool)) : mwActs (l.map mwAct) = l := by
+  induction l with
+  | nil => rfl
+  | cons e l ih => simp only [mwActs] at ih; simp [mwActs, mwAct, ih]
+
+theorem mwActs_append (a b : List Act) : mwActs (a ++ b) = mwActs a ++ mwActs b := by
+  simp [mwActs, List.filterMap_append]
+
+theorem mwActs_terminal {t : Act} (h : isTerminalAct t = true) : mwActs [t] = [] := by
+  cases t <;> simp_all [mwActs, isTerminalAct]
+
+theorem findRefuser_append_of_accept {pre : List (Nat × Bool)} (h : allAccept pre = true) (l : List (Nat × Bool)) :
+    (pre ++ l).findSome? (fun e => if e.2 then none else some e.1) =
+      l.findSome? (fun e => if e.2 then none else some e.1) := by
+  induction pre with
+  | nil => rfl
+  | cons e pre ih =>
+    simp only [allAccept, List.all_cons, Bool.and_eq_true] at h
+    simp only [List.cons_append, List.findSome?_cons, h.1, if_true]
+    exact ih (by simpa [allAccept] using h.2)
+
+/-- **C06.1 gate**: the middleware consulted are exactly those of the handlers on the route, in
+    attachment order, up to and including the first refusal (`chain` is defined independently of
+    `route`); after a refusal there is no `.redirect` / `.process` action at all and the run ends
+    with that refusal -/
+theorem gate (m : Matcher) (n : Node) (path : QStr) :
+    mwActs (route m n path) = takeThroughFirstRefusal (chain m n path) ∧
+    (∀ id, refuser (route m n path) = some id →
+      (∀ a ∈ route m n path, isTerminalAct a = false) ∧
+      (route m n path).getLast? = some (.mw id false) ∧
+      C05.terminal (route m n path) = none) := by
+  constructor
+  · rw [route_struct, tailOf, mwActs_append, mwActs_map_mwAct]
+    split
+    · rw [mwActs_terminal (termOf_terminal m n path)]; simp
+    · simp [mwActs]
+  · intro id hid
+    obtain ⟨pre, hp, ⟨t, ht, hr, hn⟩ | ⟨id', hr, hn⟩⟩ := C05.route_shape m n path
+    · exfalso
+      rw [refuser, hr, mwActs_append, mwActs_map_mwAct, mwActs_terminal ht, List.append_nil] at hid
+      have := findRefuser_append_of_accept hp []
+      simp only [List.append_nil] at this
+      rw [this] at hid
+      cases hid
+    · have e : pre.map mwAct ++ [Act.mw id' false] = (pre ++ [(id', false)]).map mwAct := by simp [mwAct]
+      have hid' : id' = id := by
+        rw [refuser, hr, e, mwActs_map_mwAct, findRefuser_append_of_accept hp] at hid
+        simpa using hid
+      subst hid'
+      rw [hr]
+      refine ⟨?_, List.getLast?_concat .., ?_⟩
+      · intro a ha
+        rw [e] at ha
+        obtain ⟨x, _, rfl⟩ := List.mem_map.1 ha
+        rfl
+      · rw [e]; exact C05.terminal_map_mwAct _
+
+/-- **C06.2 reach**: a terminal action (a handler's redirect, or any handler's `process`) happens
+    only if every middleware of every handler on the route was consulted, in order, and accepted -/
+theorem reach (m : Matcher) (n : Node) (path : QStr)
+    (h : ∃ a ∈ route m n path, isTerminalAct a = true) :
+    allAccept (mwActs (route m n path)) = true ∧ mwActs (route m n path) = chain m n path ∧
+    refuser (route m n path) = none := by
+  have hacc : allAccept (chain m n path) = true := by
+    cases hc : allAccept (chain m n path) with
+    | true => rfl
+    | false =>
+      exfalso
+      obtain ⟨a, ha, hta⟩ := h
+      rw [route_struct, tailOf, hc] at ha
+      simp only [Bool.false_eq_true, if_false, List.append_nil] at ha
+      obtain ⟨x, _, rfl⟩ := List.mem_map.1 ha
+      cases hta
+  have hg := (gate m n path).1
+  rw [ttfr_of_accept hacc] at hg
+  refine ⟨by rw [hg]; exact hacc, hg, ?_⟩
+  rw [refuser, hg]
+  have := findRefuser_append_of_accept hacc []
+  simpa using this
+
+/-- the refuser is the first refusing middleware of the route's chain -/
+theorem refuser_route (m : Matcher) (n : Node) (path : QStr) :
+    refuser (route m n path) =
+      (chain m n path).findSome? (fun e => if e.2 then none else some e.1) := by
+  rw [refuser, (gate m n path).1]
+  generalize chain m n path = c
+  induction c with
+  | nil => rfl
+  | cons e l ih =>
+    obtain ⟨i, ok⟩ := e
+    cases ok <;> simp [takeThroughFirstRefusal, ih]
+
+/-! ### non-vacuity -/
+open Qhttp.C05.Ex in
+example : refuser (route toyM (root false true) path) = some 11 ∧
+    mwActs (route toyM (root false true) path) = [(0, true), (10, true), (11, false)] ∧
+    chain toyM (root false true) path = [(0, true), (10, true), (11, false), (20, true)] := by decide
+open Qhttp.C05.Ex in
+example : ∃ a ∈ route toyM (root true true) path, isTerminalAct a = true := by decide
+
 end Qhttp.C06
